@@ -32,7 +32,9 @@ def composite_invariant(u, s, cs):
     if have != want:
         return "the children together have %d models, the added constraints %d" % (len(have), len(want))
     # a cached merged solver (CompositedCacheMixin) must still be the combination of the children it stands for
-    for key, ms in list(getattr(s, "_merged_solvers", {}).items()):
+    # (only meaningful while the solver is satisfiable: once it is not, a child or a cached solver may legitimately have
+    # been reduced to False while others have not)
+    for key, ms in (list(getattr(s, "_merged_solvers", {}).items()) if want else []):
         try:
             cur = s._solvers_for_variables(set(ms.variables) | set(key))
         except Exception:  # noqa
@@ -153,6 +155,45 @@ def stale_merged_cache(claripy, drv, stats):
     return None
 
 
+def cache_correspondence(claripy, drv, rng, stats, n):
+    """the extracted invalidation rule against CompositedCacheMixin._store_child on real composites with a filled cache:
+    the same cached entries must survive.  -> None | mismatch"""
+    import solverhist
+    c = claripy
+    for it in range(n):
+        u = solverhist.Universe(c, drv, tag="c12cc%d_" % (it % 5))
+        forms = solverhist.constraint_pool(u, rng)
+        exprs = solverhist.expr_pool(u, rng)
+        s = c.SolverComposite()
+        try:
+            for _ in range(rng.randint(2, 6)):
+                if rng.random() < 0.5:
+                    s.add(rng.choice(forms)())
+                else:
+                    s.eval(rng.choice(exprs), 2)
+        except c.errors.ClaripyError:
+            continue
+        if s._unsat or not s._merged_solvers or not s._solver_list:
+            continue
+        ids = {}
+        before = [(key, frozenset(ms.variables)) for key, ms in s._merged_solvers.items()]
+        kid = rng.choice(s._solver_list)
+        names = sorted(kid.variables)
+        if not names:
+            continue
+        num = lambda v: ids.setdefault(v, len(ids) + 1)  # noqa
+        out = drv.ask(["cache_remove", [[sorted(num(v) for v in key), sorted(num(v) for v in mv)] for key, mv in before], [num(v) for v in names]])
+        s._store_child(kid)
+        after = set(s._merged_solvers.keys())
+        stats["corr_cache_invalidation"] += 1
+        model_keeps = {key for (key, _), keep in zip(before, out) if keep == "1"}
+        if model_keeps != after:
+            return {"what": "the cached merged solvers that survive _store_child differ", "stored_child_variables": names,
+                    "cache_before": [[sorted(k), sorted(mv)] for k, mv in before], "model_keeps": [sorted(k) for k in model_keeps],
+                    "real_keeps": [sorted(k) for k in after]}
+    return None
+
+
 def main(tier, seed, replay=None):
     sys.path.insert(0, REPO)
     import claripy
@@ -173,8 +214,13 @@ def main(tier, seed, replay=None):
     okd, dlog = build_driver(*BV_DRIVER)
     stats = collections.Counter()
     fail = None
+    mismatch = None
     drv = Driver("bvdriver") if okd else None
     if drv is not None:
+        try:
+            mismatch = cache_correspondence(claripy, drv, random.Random(seed + 17), stats, 200 if tier == "quick" else 3000)
+        except Exception as ex:  # noqa
+            mismatch = {"exception": repr(ex)}
         facs = [("SolverComposite", lambda: claripy.SolverComposite())]
         ops = ["add", "add", "add", "add", "satisfiable", "eval", "eval", "batch_eval", "min", "max", "min", "max", "solution",
                "is_true", "simplify", "downsize", "branch", "eval_bool", "split", "combine", "merge"]
@@ -195,11 +241,12 @@ def main(tier, seed, replay=None):
                        "constraints, branch, simplify, downsize, split, combine, merge; after every step the child-partition invariant on every "
                        "solver of the tree; every answer against enumeration; plus cache-aimed scenarios")
     rep.cov["histogram"] = dict(stats)
-    rep.cov["traces_validated_against_impl"] = stats["histories"]
+    rep.cov["traces_validated_against_impl"] = stats["histories"] + stats["corr_cache_invalidation"]
     if fail:
         rep.violation(fail)
-    elif not proof_ok or drv is None:
+    elif not proof_ok or drv is None or mismatch:
         rep.violation({"broken": {"obligations_not_discharged": [o for o in pr["obligations"] if not o["ok"]], "forbidden": forb,
+                                  "model_mismatch": mismatch,
                                   "driver": None if okd else dlog[-800:], "coq_log_tail": pr.get("log", "")[-1200:]},
                        "note": "theorem no longer checks; the history tests found no wrong answer"}, found_input=False)
     if drv:
